@@ -32,6 +32,8 @@ def body(desc, ctx):
             m.oriented()
         if kind != 'wedge' and m.nelements <= 30:
             m.refined()
+        if kind in ('line', 'tri', 'tet') and desc['cls'].endswith('1') and m.nelements <= 30:
+            m.refined(np.array([0, m.nelements - 1], dtype=np.int64))        # adaptive: sorts a working copy of the cells internally
         if desc['cls'].endswith('1'):
             m.restrict(np.arange(0, m.nelements, 2))
             m.mirrored(tuple([1.0] + [0.0] * (m.dim() - 1)))
